@@ -23,14 +23,14 @@ def SameCtl (r s : St) : Prop :=
 
 theorem delHead_keys_sub (s : St) (q : Nat) (h : q ∈ keys (delHead s).1.pnOlds) : q ∈ keys s.pnOlds := by
   show q ∈ keys s.pnOlds
-  have h' : q ∈ keys (delHeadCore s.delAll s.pnOlds s.disk s.dirs).1 := h
-  cases hd : (delHeadCore s.delAll s.pnOlds s.disk s.dirs).2.2.2 with
+  have h' : q ∈ keys (delHeadCore s.delCfg s.pnOlds s.disk s.dirs).1 := h
+  cases hd : (delHeadCore s.delCfg s.pnOlds s.disk s.dirs).2.2.2 with
   | none =>
     obtain ⟨pd, adr, ho, _⟩ := delHeadCore_ok _ _ _ _ hd
     rw [ho]
     exact List.mem_cons_of_mem _ h'
   | some e =>
-    have := delHeadCore_err s.delAll s.pnOlds s.disk s.dirs (by simp [hd])
+    have := delHeadCore_err s.delCfg s.pnOlds s.disk s.dirs (by simp [hd])
     rw [this] at h'
     exact h'
 
@@ -349,7 +349,7 @@ theorem replace_olds (s : St) (pnOld : Nat) (files kept : List String) :
         have := hgone a ha
         split <;> exact this
       · have e1 : (delHead (stored s pnOld files kept)).1.pnOlds =
-            (delHeadCore (stored s pnOld files kept).delAll (stored s pnOld files kept).pnOlds
+            (delHeadCore (stored s pnOld files kept).delCfg (stored s pnOld files kept).pnOlds
               (stored s pnOld files kept).disk (stored s pnOld files kept).dirs).1 := rfl
         have e2 : (stored s pnOld files kept).n = s.n := rfl
         simp only [e1, e2]
